@@ -40,11 +40,20 @@ impl EdgeLocate for OpenEdge {
         &self,
         _section: &Curve2,
         stations: Vec<InscribedCircle>,
-        _front: bool,
+        front: bool,
         _af_tol: f64,
     ) -> Result<(Option<AirfoilEdge>, Vec<InscribedCircle>)> {
+        // The stations run from the leading to the trailing edge, so the open leading edge is at
+        // the first station and the open trailing edge at the last one
+        let end_station = if front {
+            stations.first()
+        } else {
+            stations.last()
+        }
+        .ok_or("Empty inscribed circles container.")?;
+
         Ok((
-            Some(AirfoilEdge::open(stations.last().unwrap().circle.center)),
+            Some(AirfoilEdge::open(end_station.circle.center)),
             stations,
         ))
     }
